@@ -86,6 +86,8 @@ def _ctx():
         ctx["ctx_error"] = repr(e)
     if OUTBUF[0] is not None:
         ctx["out"] = OUTBUF[0].tell()
+    nr = sum(1 for t in threading.enumerate() if t.name == "SimplelineInputThread")
+    if nr > 1: ctx["readers"] = nr          # more than one console reader alive at this moment
     return ctx
 def xlog(ev):
     if threading.current_thread().name == "SimplelineInputThread":
@@ -420,6 +422,7 @@ def run_real(case, loopkind="main"):
         except NothingScheduledError: outcome = ("raised", "NothingScheduled", None)
         except ExitMainLoop: outcome = ("raised", "exit", None)
         except BaseException as e:
+            if type(e).__name__ == "CaseTimeout": raise          # the per-case watchdog of the harness: the session hangs (reported as such, not as an outcome)
             outcome = ("blocked",) if type(e).__name__ == "Blocked" else ("raised", "err", type(e).__name__)
     finally:
         try: xlog(("end",))
